@@ -1,0 +1,47 @@
+//go:build verif
+
+package regulator
+
+import "sort"
+
+// Hooks for the deterministic-simulation harness (build tag "verif").
+// With the tag off verifPickTable is a stub (verif_hooks_off.go) and the
+// shipped behaviour is unchanged.
+
+// VerifPickTable, when set, chooses which of the tables that currently
+// require players receives the next hand-out. ids is sorted; the returned
+// index selects one of them. Every choice it can make is one the shipped
+// code can make too (it returns the first such table in Go's randomised map
+// iteration order).
+var VerifPickTable func(r Regulator, ids []string) int
+
+// VerifWaitingQueue returns a copy of the waiting queue (read-only
+// snapshot, so that a dropped player is distinguishable from one that is
+// legitimately waiting).
+func (r *regulator) VerifWaitingQueue() []string {
+	r.mu.RLock()
+	defer r.mu.RUnlock()
+	return append([]string{}, r.waitingQueue...)
+}
+
+func (r *regulator) verifPickTable() (*Table, bool) {
+	f := VerifPickTable
+	if f == nil {
+		return nil, false
+	}
+	ids := make([]string, 0, len(r.tables))
+	for id, t := range r.tables {
+		if t.Required > 0 {
+			ids = append(ids, id)
+		}
+	}
+	if len(ids) == 0 {
+		return nil, true
+	}
+	sort.Strings(ids)
+	i := f(r, ids)
+	if i < 0 || i >= len(ids) {
+		i = 0
+	}
+	return r.tables[ids[i]], true
+}
